@@ -34,7 +34,7 @@ const std::vector<std::string> & bkg_names()
 static std::string catalogue_path()
 {
   const char * e = getenv("BXSIM_CATALOGUE");
-  return e ? e : "/verif/data/dbd_catalogue.txt";
+  return e ? std::string(e) : verif_dir() + "/data/dbd_catalogue.txt";
 }
 
 const std::vector<DbdEntry> & dbd_catalogue()
